@@ -103,4 +103,32 @@ def problems(env, cfg, tier):
 
     reset = dict(title=f"Maze.reset@{cfg}", args=(state, ts.observation.walls[0, :2].astype(jnp.uint32)), requires=gen_post, ensures=reset_ens,
                  targets=[type(env).reset], note="generator replaced by its post-condition (contract boundary; the generator's own contract is C10)")
-    return [step, reset]
+    # reset with the REAL generator; only the heavy maze construction (generate_maze: data-dependent loops) is a contract boundary: it
+    # returns symbolic walls with at least two free cells; the sampling and the decoding of start/target are the real code
+    from jumanji.environments.routing.maze import generator as G
+
+    def gen2_req(walls, key):
+        return {"at_least_two_free_cells": jnp.sum(~walls) >= 2}
+
+    def gen2_ens(walls, key):
+        with K.with_attr(G.maze_generation, "generate_maze", lambda w, h, k: walls):
+            s, ts = env.reset(key)
+        o = ts.observation
+        tg = s.target_position
+        out = {"C10.start_cell_is_free": free(env, s.walls, s.agent_position.row, s.agent_position.col),
+               "C10.target_cell_is_free": free(env, s.walls, tg.row, tg.col),
+               "C10.start_and_target_differ": (s.agent_position.row != tg.row) | (s.agent_position.col != tg.col),
+               "C04.reset_mask_is_exactly_the_legal_moves": o.action_mask == legal(env, s),
+               "C11.reset_step_count_zero": s.step_count == 0,
+               "canary.start_is_top_left": (s.agent_position.row == 0) & (s.agent_position.col == 0)}
+        for k, v in inv(env, s, jnp.int32(1)).items():
+            out["C07.reset_" + k] = v
+        out.update(K.spec_bounds(env.observation_spec, o, "C01.reset_obs_bounds"))
+        return out
+
+    reset2 = None
+    if isinstance(env.generator, G.RandomGenerator):
+        reset2 = dict(title=f"Maze.reset(real generator, generate_maze as boundary)@{cfg}", args=(state.walls, jnp.zeros((2,), jnp.uint32)), requires=gen2_req,
+                      ensures=gen2_ens, targets=[type(env).reset, G.RandomGenerator.__call__],
+                      note="maze_generation.generate_maze replaced by symbolic walls with >= 2 free cells (its connectivity is C10's bounded part)")
+    return [step, reset] + ([reset2] if reset2 else [])
